@@ -24,4 +24,16 @@ PROPS = {
         {"id": "C16", "race": True, "quick_n": 160, "thorough_n": 20000, "quick_s": 70, "thorough_s": 1500, "timeout": 180,
          "rule": "one OS process per case under -race; synthetic multi-block table x workers 3..16 x run size x schedule seed x 0-2 injected store errors; non-trivial = >=2 effective workers and >=2 blocks (or an injected error fired); distinct by plan hash"},
     ]},
+    "C19": {"level": "exploration", "profiles": [
+        {"id": "C19", "quick_n": 4000, "thorough_n": 400000, "quick_s": 60, "thorough_s": 900,
+         "rule": "row multisets x run size 1..inf x removed-column sets x feed path; non-trivial = >=3 rows and (>=1 spill file or removed columns or duplicate keys); distinct by plan hash"},
+    ]},
+    "C20": {"level": "exploration", "profiles": [
+        {"id": "C20", "quick_n": 8000, "thorough_n": 1500000, "quick_s": 60, "thorough_s": 900,
+         "rule": "Add/Flush/Has/Len/reopen sequences (<=200 steps) over a 65-hash space x batch size, simulated file (thorough: also real file); non-trivial = >=2 flushes, >=1 repeat add, and (>=1 reopen or >=10 members); distinct by plan hash"},
+    ]},
+    "C18": {"level": "exploration", "profiles": [
+        {"id": "C18", "quick_n": 30000, "thorough_n": 5000000, "quick_s": 60, "thorough_s": 900,
+         "rule": "valid encoded stream (9 kinds) x read partition (whole, 1-byte, fixed, header-straddling, random cuts, data+EOF); decode whole vs partitioned; non-trivial = partition delivered the stream in >=3 reads; distinct by plan hash"},
+    ]},
 }
